@@ -1,5 +1,7 @@
 import QuicProofs.Bridge.Recovery
 import QuicProofs.Bridge.VarInt
 import QuicProofs.Lemmas.Recovery
+import QuicProofs.Lemmas.RecoveryManager
 import QuicProofs.Props.C05VarInt
 import QuicProofs.Props.C09Recovery
+import QuicProofs.Props.C09RecoveryManager
